@@ -1073,11 +1073,10 @@ class ContentDocument(Document):
 
     body = self.get_body()
 
-    if body is not None: 
-      map(
-        lambda e: e.get_region() and e.get_region().get_id() == region_id and e.set_region(None),
-        body.dfs_iterator()
-      )
+    if body is not None:
+      for e in body.dfs_iterator():
+        if e.get_region() is region:
+          e.set_region(None)
 
     del self._regions[region_id]
 
